@@ -505,8 +505,14 @@ impl Wal {
 
         let offset = file.metadata()?.len();
         file.seek(SeekFrom::End(0))?;
+        #[cfg(nervusdb_verif)]
+        crate::verif_io::hook(crate::verif_io::IoKind::Write, &self.path, None, offset, &len.to_le_bytes())?;
         file.write_all(&len.to_le_bytes())?;
+        #[cfg(nervusdb_verif)]
+        crate::verif_io::hook(crate::verif_io::IoKind::Write, &self.path, None, offset + 4, &crc.to_le_bytes())?;
         file.write_all(&crc.to_le_bytes())?;
+        #[cfg(nervusdb_verif)]
+        crate::verif_io::hook(crate::verif_io::IoKind::Write, &self.path, None, offset + 8, &body)?;
         file.write_all(&body)?;
         file.flush()?;
         Ok(offset)
@@ -516,6 +522,8 @@ impl Wal {
         let Some(file) = self.file.as_mut() else {
             return Err(Error::WalProtocol("wal file is closed"));
         };
+        #[cfg(nervusdb_verif)]
+        crate::verif_io::hook(crate::verif_io::IoKind::Sync, &self.path, None, 0, &[])?;
         file.sync_data()?;
         Ok(())
     }
@@ -530,6 +538,8 @@ impl Wal {
         };
 
         {
+            #[cfg(nervusdb_verif)]
+            crate::verif_io::hook(crate::verif_io::IoKind::Create, Path::new("<wal.tmp>"), None, 0, &[])?;
             let mut tmp_file = OpenOptions::new()
                 .write(true)
                 .create_new(true)
@@ -541,6 +551,21 @@ impl Wal {
                 let len =
                     u32::try_from(body.len()).map_err(|_| Error::WalRecordTooLarge(u32::MAX))?;
                 let crc = crc32(&body);
+                #[cfg(nervusdb_verif)]
+                {
+                    // one event per record, appended at the current end of the temporary file
+                    let mut frame = Vec::with_capacity(8 + body.len());
+                    frame.extend_from_slice(&len.to_le_bytes());
+                    frame.extend_from_slice(&crc.to_le_bytes());
+                    frame.extend_from_slice(&body);
+                    crate::verif_io::hook(
+                        crate::verif_io::IoKind::Write,
+                        Path::new("<wal.tmp>"),
+                        None,
+                        file.metadata()?.len(),
+                        &frame,
+                    )?;
+                }
                 file.write_all(&len.to_le_bytes())?;
                 file.write_all(&crc.to_le_bytes())?;
                 file.write_all(&body)?;
@@ -553,8 +578,13 @@ impl Wal {
             }
             append_to(&mut tmp_file, &WalRecord::CommitTx { txid })?;
             tmp_file.flush()?;
+            #[cfg(nervusdb_verif)]
+            crate::verif_io::hook(crate::verif_io::IoKind::Sync, Path::new("<wal.tmp>"), None, 0, &[])?;
             tmp_file.sync_data()?;
         }
+
+        #[cfg(nervusdb_verif)]
+        crate::verif_io::hook(crate::verif_io::IoKind::Rename, Path::new("<wal.tmp>"), Some(&self.path), 0, &[])?;
 
         // Best-effort replace (POSIX: rename overwrites; Windows: needs remove first).
         if std::fs::rename(&tmp, &self.path).is_err() {
